@@ -65,6 +65,7 @@ func c29Scenarios(thorough bool) []c29Scenario {
 	// capacity changes
 	add("lower 2->1", 2, []c29Op{c29A("u1")}, []c29Op{c29A("u2")}, []c29Op{c29Adj(1)}, []c29Op{c29A("u3")})
 	add("raise 1->2", 1, []c29Op{c29A("u1")}, []c29Op{c29A("u2")}, []c29Op{c29Adj(2)}, []c29Op{c29A("u3")})
+	add("lower 3->1 with backlog", 3, []c29Op{c29A("u1"), c29A("u1")}, []c29Op{c29A("u2")}, []c29Op{c29A("u3")}, []c29Op{c29Adj(1), c29A("u2")})
 	add("lower and cancel", 2, []c29Op{c29A("u1")}, []c29Op{c29AC("u2", 0)}, []c29Op{c29Adj(1), c29C(0)}, []c29Op{c29A("u1")})
 	if thorough {
 		add("4 threads 2 users cap1", 1, []c29Op{c29A("u1"), c29A("u2")}, []c29Op{c29A("u2"), c29A("u1")}, []c29Op{c29A("u1")}, []c29Op{c29A("u2")})
@@ -146,6 +147,11 @@ func (m *c29Mon) check(s *vsched.Sched) {
 	// (a) admission never exceeds capacity: active grows only up to the capacity in force
 	if delta > 0 && q.activeQuery > q.maxActiveQuery {
 		m.fail("C29:queue-admits-above-capacity", fmt.Sprintf("active queries grew from %d to %d with capacity %d", m.prevAct, q.activeQuery, q.maxActiveQuery))
+	}
+	// ... also when the count does not grow: a release that hands its slot to a waiter while the
+	// queue is still above a lowered capacity admits above capacity just the same
+	if len(granted) > 0 && q.activeQuery > q.maxActiveQuery {
+		m.fail("C29:queue-admits-above-capacity", fmt.Sprintf("query of user %s admitted while %d queries are active with capacity %d (active was %d)", granted[0], q.activeQuery, q.maxActiveQuery, m.prevAct))
 	}
 	// (b) no lost wake-up: free capacity implies nobody waits (after a capacity raise the code
 	// grants at the next release only, which the statement does not forbid: monitor off)
